@@ -165,6 +165,20 @@ def run(ctx):
             claim = h.calls("pgcat::server::Server::claim")
             pre = [b_ for b_ in io if not (claim and h.dominates(claim[0].block, b_))]
             r3.check(not pre, "no-io-before-gate", "no server I/O happens in the idle loop before the gate/checkout", "server I/O before the checkout: bb%s" % pre)
+            # `no new client transaction is started`: a transaction starts behind the gate, never from inside the transaction loop. Once a round trip ends with
+            # in_transaction()==false in transaction mode (and no COPY under way), the next client message is read only after the server went back and the
+            # gate was passed again - keeping the server for a next query that happens to be buffered already starts a transaction on a paused pool
+            if claim:
+                hsw_ = switches(h)
+                _t, inF, _ = call_bool_edges(h, "pgcat::server::Server::in_transaction", switches_cache=hsw_)
+                inF = [e for e in inF if h.dominates(claim[0].block, e[0])]
+                tmT, tmF = field_bool_edges(h, "transaction_mode", hsw_)
+                cpT, cpF, _ = call_bool_edges(h, "pgcat::server::Server::in_copy_mode", switches_cache=hsw_)
+                inner_rm = [b_ for b_ in rm if h.dominates(claim[0].block, b_)]
+                wit = h.uncrossed_path([d for _, d in inF], inner_rm, edges=set(tmF) | set(cpT), blocks=[c.block for c in wps]) if inF and inner_rm else [0]
+                r3.check(bool(inF) and bool(inner_rm) and wit is None, "next-transaction-passes-the-gate", "after a round trip that leaves no transaction open (%d sites), in transaction mode the next client message is read only behind the gate" % len(inF),
+                         "after a round trip that ended the transaction (in_transaction()==false, transaction mode, no COPY) the transaction loop can read and run the client's next message without releasing the server and passing "
+                         "wait_paused(): a pipelined second query starts a transaction on a paused pool", "", wit and wit != [0] and h.describe_path(wit))
             recv_f = fields_of(h, wps[0].args[0])
             vis = set()
             origins(h, wps[0].args[0], visited=vis)
